@@ -36,7 +36,9 @@ for d in sorted(glob.glob(os.path.join(ROOT, "seeded", "C*"))):
     m = json.load(open(mp))
     st = m.get("steps", {})
     conf = "yes" if st.get("demo_without_change") == "pass" and str(st.get("demo_with_change", "")).startswith("fails") and st.get("existing_suites_pass_with_change") is True else "NO: %s" % json.dumps(st)[:120]
-    ver = "; ".join("%s %s (%ss)" % (p, c["verdict"], c["seconds"]) for p, c in m.get("check", {}).items())
+    ver = "; ".join("%s %s (%ss)%s" % (p, c["verdict"], c["seconds"], (", before strengthening: " + c["verdict_of_the_check_before_strengthening"]["verdict"]) if "verdict_of_the_check_before_strengthening" in c else "") for p, c in m.get("check", {}).items())
+    if m.get("history"):
+        ver += " - " + m["history"]
     rows.append("| %s | %s | %s | %s | %s |" % (os.path.basename(d), m.get("breaks"), conf, ver, m.get("needs_to_manifest_summary", m.get("needs_to_manifest", ""))))
 open(os.path.join(ROOT, "seeded", "RESULTS.md"), "w").write("\n".join(rows) + "\n")
 print("seeded:", len(rows) - 6)
